@@ -133,6 +133,33 @@ pub fn seeds() -> Vec<(String, Vec<u8>)> {
     // CFF / CFF2 fonts from the C18 generator: seac composites (well-formed, self-referencing, cyclic, chained), recursive
     // and deeply nested subroutines, CID-keyed fonts, CFF2 with blend, hint masks, operand-stack limits
     v.extend(crate::c18::seeds_for_c01());
+    // variable fonts whose name table carries long / non-ASCII strings in the ids that instancing reads to build the
+    // names of the instance (1, 2, 4, 6, 16, 17, 25 = Variations PostScript Name Prefix, and the fvar axis / instance ids)
+    if let Ok(base) = std::fs::read("/repo/tests/fonts/variable/UnderlineTest-VF.ttf") {
+        if let Some(f) = otmodel::sfnt::parse(&base) {
+            let variants: [(&str, String); 6] = [
+                ("name-long-ascii", "A".repeat(90)),
+                ("name-long-2-byte-chars", "\u{e9}".repeat(45)),
+                ("name-long-2-byte-chars-offset-1", format!("x{}", "\u{e9}".repeat(45))),
+                ("name-long-3-byte-chars-offset-2", format!("ab{}", "\u{4e02}".repeat(30))),
+                ("name-long-4-byte-chars-offset-1", format!("a{}", "\u{1F600}".repeat(24))),
+                ("name-empty-strings", String::new()),
+            ];
+            for (nm, text) in variants {
+                let ids: Vec<u16> = [1u16, 2, 3, 4, 5, 6, 16, 17, 25].into_iter().chain(256..=275).collect();
+                let utf16: Vec<u8> = text.encode_utf16().flat_map(|u| u.to_be_bytes()).collect();
+                let mut w = W::new();
+                w.u16(0).u16(ids.len() as u16).u16(6 + 12 * ids.len() as u16);
+                for id in &ids {
+                    w.u16(3).u16(if text.chars().any(|c| c as u32 > 0xFFFF) { 10 } else { 1 }).u16(0x409).u16(*id).u16(utf16.len() as u16).u16(0);
+                }
+                w.bytes(&utf16);
+                let name = w.done();
+                let tables: Vec<(u32, Vec<u8>)> = f.dir.iter().filter_map(|e| f.table(e.tag).map(|d| (e.tag, if e.tag == tag(b"name") { name.clone() } else { d.to_vec() }))).collect();
+                v.push((format!("variable-{}", nm), otmodel::sfnt::build(f.flavor, &tables)));
+            }
+        }
+    }
     // a TrueType collection of two small fonts sharing tables
     {
         let t = otmodel::tables::minimal_tables(4, &cm, &[]);
